@@ -73,7 +73,11 @@ func exprList(r *Rng, n int) string {
 
 func genC14Stmt(r *Rng, reading bool) c14Stmt {
 	for {
-		switch k := r.Intn(28); {
+		switch k := r.Intn(30); {
+		case k == 28:
+			return c14Stmt{Src: "SELECT COUNT(*) FROM a; SHOW TABLES; SHOW VIEWS; SHOW FUNCTIONS; SHOW FIELDS FROM a;", Repeat: 2, Reads: true}
+		case k == 29:
+			return c14Stmt{Src: "EXECUTE 'SELECT id, v + %s FROM a WHERE s <> %s ORDER BY id LIMIT 3' USING @n, @x; PRINTF '%s/%s/%s' USING @x, @n, @d;", Repeat: 2, Reads: true}
 		case k == 22:
 			return c14Stmt{Src: "SELECT id, v FROM a WHERE v IN (5, 6, 2 + 1, @n) OR s IN ('ant', UPPER('dog'), @x) ORDER BY v DESC, id LIMIT 3 OFFSET 1;", Repeat: 2, Reads: true}
 		case k == 23:
